@@ -23,22 +23,22 @@ type pool struct {
 
 // prov is what the miner contract records about one miner or sharder.
 type prov struct {
-	ID        string
-	Type      int // provMiner / provShard
-	Killed    bool // SimpleNode.HasBeenKilled
-	SPKilled  bool // StakePool.HasBeenKilled
-	ShutDown  bool
-	Reward    uint64 // unpaid service charge of the provider
-	Wallet    string // delegate wallet
-	MaxDeleg  int
-	MinStake  uint64
-	Staked    uint64 // SimpleNode.TotalStaked (denormalised)
-	Pools     map[string]pool
-	Raw       []byte
-	SC        string // contract that holds the record
-	HasNode   bool   // the provider node exists
-	HasPool   bool   // the stake pool record exists (always with the node in the miner contract)
-	Offers    uint64 // storage contract: total offers
+	ID       string
+	Type     int  // provMiner / provShard
+	Killed   bool // SimpleNode.HasBeenKilled
+	SPKilled bool // StakePool.HasBeenKilled
+	ShutDown bool
+	Reward   uint64 // unpaid service charge of the provider
+	Wallet   string // delegate wallet
+	MaxDeleg int
+	MinStake uint64
+	Staked   uint64 // SimpleNode.TotalStaked (denormalised)
+	Pools    map[string]pool
+	Raw      []byte
+	SC       string // contract that holds the record
+	HasNode  bool   // the provider node exists
+	HasPool  bool   // the stake pool record exists (always with the node in the miner contract)
+	Offers   uint64 // storage contract: total offers
 }
 
 func (p *prov) stake() *big.Int {
